@@ -114,11 +114,11 @@ class ExprMixin:
         if isinstance(t, TInt):
             return v.z != 0
         if is_strlike(t):
-            return z3.Length(v.z) > 0
+            return self.seq_len(v.z) > 0
         if isinstance(t, TList):
             if t.elem is None:
                 return z3.BoolVal(False)
-            return z3.Length(v.z) > 0
+            return self.seq_len(v.z) > 0
         if isinstance(t, TNone):
             return z3.BoolVal(False)
         if isinstance(t, TOpt):
@@ -223,14 +223,48 @@ class ExprMixin:
                 iv = sym.lsimp(i)
                 if z3.is_int_value(iv):
                     idx = iv.as_long()
-                    for ch in s.children():
+                    chs = s.children()
+                    for n_, ch in enumerate(chs):
                         if ch.decl().kind() == z3.Z3_OP_SEQ_UNIT:
                             if idx == 0:
                                 return ch.children()[0]
                             idx -= 1
                         else:
+                            if n_ == len(chs) - 1:
+                                # nth(u1..uk ++ X, k+j) = nth(X, j)   (callers index in range)
+                                return self._nth(ch, z3.IntVal(idx), depth + 1)
                             break
         return s[i]
+
+    def seq_len(self, z, depth=0):
+        """len(z) computed structurally (units, concats, slices whose length the engine fixed)."""
+        if z is None:
+            return z3.IntVal(0)
+        if depth < 8 and z3.is_app(z):
+            k = z.decl().kind()
+            if k == z3.Z3_OP_SEQ_EMPTY:
+                return z3.IntVal(0)
+            if k == z3.Z3_OP_SEQ_UNIT:
+                return z3.IntVal(1)
+            if k == z3.Z3_OP_SEQ_CONCAT:
+                return sym.lsimp(z3.Sum(*[self.seq_len(c, depth + 1) for c in z.children()]))
+        return z3.Length(z)
+
+    def simp_extract(self, s, off, ln, depth=0):
+        """extract(s, off, ln) with structural rewriting through leading units and nested extracts
+        (valid sequence identities for 0 <= off, 0 <= ln, off + ln <= len(s); callers guarantee this)."""
+        if depth < 6 and z3.is_app(s):
+            k = s.decl().kind()
+            offv = sym.lsimp(off)
+            if k == z3.Z3_OP_SEQ_CONCAT and z3.is_int_value(offv) and offv.as_long() >= 1:
+                chs = s.children()
+                if chs[0].decl().kind() == z3.Z3_OP_SEQ_UNIT:
+                    rest = chs[1] if len(chs) == 2 else z3.Concat(*chs[1:])
+                    return self.simp_extract(rest, z3.IntVal(offv.as_long() - 1), ln, depth + 1)
+            if k == z3.Z3_OP_SEQ_EXTRACT:
+                base, o, _l0 = s.children()
+                return self.simp_extract(base, sym.lsimp(o + off), ln, depth + 1)
+        return z3.SubSeq(s, off, ln)
 
     def mk_char(self, st: State, c, t=STR) -> SV:
         c = sym.lsimp(c)
@@ -830,7 +864,7 @@ class ExprMixin:
             if isinstance(t, TList) and t.elem is None:
                 self.partial(st, z3.BoolVal(False), "IndexError", node)
                 raise EngineError("index into untyped empty list")
-            n = z3.Length(base.z)
+            n = self.seq_len(base.z)
             self.partial(st, z3.And(idx.z >= -n, idx.z < n), "IndexError", node)
             k = self.norm_index(idx.z, n, st)
             el = self.seq_nth(base.z, k)
@@ -881,7 +915,7 @@ class ExprMixin:
             l = None if isinstance(lo.t, TNone) else lo.const.v
             h = None if isinstance(hi.t, TNone) else hi.const.v
             return mk_const(base.const.v[l:h])
-        n = z3.Length(base.z)
+        n = self.seq_len(base.z)
 
         def bound(v, default):
             if isinstance(v.t, TNone):
@@ -899,6 +933,8 @@ class ExprMixin:
                 k = xv.as_long()
                 if k == 0:
                     return z3.IntVal(0)
+                if self.implied(st, xv <= n):
+                    return xv
                 return z3.If(xv > n, n, xv)
             if self.implied(st, x >= 0):
                 if self.implied(st, x <= n):
@@ -909,11 +945,15 @@ class ExprMixin:
 
         l = bound(lo, z3.IntVal(0))
         h = bound(hi, n)
-        ln = z3.If(h - l < 0, 0, h - l)
+        if self.implied(st, h - l >= 0):
+            ln = h - l
+        else:
+            ln = z3.If(h - l < 0, 0, h - l)
         l, ln = sym.lsimp(l), sym.lsimp(ln)
-        r = z3.SubSeq(base.z, l, ln)
+        r = self.simp_extract(base.z, l, ln)
         # lemma instance: the length of the slice (valid for 0 <= l <= n, 0 <= ln, l+ln <= n)
-        st.assume_raw(z3.Length(r) == ln)
+        # (guarded: bounds used to simplify l/ln may only hold under the current short-circuit guards)
+        st.assume(z3.Length(r) == ln)
         return SV(t, r)
 
     # ------------------------------------------------------------------
